@@ -200,9 +200,6 @@ End Spec.
 Section SpecJsr.
 Variable O : oracles.
 
-Definition nl : ascii := ascii_of_nat 10.
-Definition newline_free (s : str) : bool := forallb (fun c => negb (Ascii.eqb c nl)) s.
-
 Definition tk_admits_jsr (t : tk) (seg : str) : bool :=
   match t with
   | TLit s => str_eqb seg s
@@ -221,7 +218,7 @@ Fixpoint jsr_admits_segs (tpl : list vtok) (segs : list str) : bool :=
       | [] => false
       | s :: segs' =>
           if is_tail t then
-            match tpl' with [] => newline_free (join [slash] segs) | _ => false end
+            match tpl' with [] => true | _ => false end
           else tk_admits_jsr (v_tk t) s && jsr_admits_segs tpl' segs'
       end
   end.
@@ -249,8 +246,6 @@ Definition path_segs (p : str) : option (list str) :=
 Definition jsr_tpl (template : str) : list vtok :=
   map (parse_tok false) (filter (fun t => negb (str_eqb t [])) (tokenize template)).
 
-(* everything after the root's own segments must be newline-free ('.' in the
-   root's final group does not match a newline) *)
 Definition jsr_admits_path (w : service) (r : route) (p : str) : bool :=
   let rt := jsr_tpl (s_root w) in
   let tt := jsr_tpl (r_rel r) in
@@ -261,7 +256,6 @@ Definition jsr_admits_path (w : service) (r : route) (p : str) : bool :=
     | None => false
     | Some segs =>
         jsr_admits_segs (rt ++ tt) segs
-        && newline_free (join [slash] (skipn (List.length rt) segs))
     end
   end.
 
